@@ -37,33 +37,45 @@ def support_and_window(S, rep, dim):
         got = nf((const(c), i))
         want = fn("floor", (sym("pos[%d,i]" % c) - shift) / dx)
         rep.ob("C06.a", "%s nearest index of coordinate %d" % (lab, c), got == want, "nearest index is %r" % (got,), key="C06.a|%s|nearest|%d|%s" % (lab, c, short(got, 80)))
-    # windows of the transfer kernels
-    Rr = transfer_records(comm)
-    g0 = next((g for g in Rr["gathers"] if g.get("factors")), None)
+    # windows of the interpolation kernels: scalar (n_components == 1) and vector variant, every component's gather
+    g0 = Rr = None
+    for nc in sorted({1, dim}):
+        comm_n = comm if nc == dim else Comm(S, dim, "cosine", nc)
+        Rn = transfer_records(comm_n)
+        gs = [g for g in Rn["gathers"] if g.get("factors")]
+        vlab = "%s %s" % (lab, "vector" if nc > 1 else "scalar")
+        if not gs:
+            rep.ob("C06.a", vlab + " window", False, "cannot read the interpolation window", key="C06.a|%s|window" % vlab)
+            continue
+        if nc == dim:
+            g0, Rr = gs[0], Rn
+        near = Rn["nearest"]
+        esyms = getattr(near.alloc, "elem_syms", {})
+        for gi, g in enumerate(gs):
+            e = next((x for x in g["factors"] if isinstance(x, Arr) and x.alloc.id == Rn["eul"].alloc.id), None)
+            if e is None:
+                rep.ob("C06.b", "%s gather %d" % (vlab, gi), False, "the interpolation does not read the Eulerian field", key="C06.b|%s|%d|noeul" % (vlab, gi))
+                continue
+            fixed, win = view_window(e)
+            for k, (lo, hi) in enumerate(win):
+                coord = dim - 1 - k          # array axis k carries coordinate dim-1-k (x on the last axis)
+                ext = simplify_scalar(hi - lo)
+                # which row of the nearest-index array does this axis use?
+                rows = set()
+                for a in lo.all_atoms():
+                    if a[0] == "s" and a[1] in esyms:
+                        rows.add(simplify_scalar(esyms[a[1]][1][0]))
+                base = None
+                for nm, (res, index) in esyms.items():
+                    if simplify_scalar(index[0]) == coord:
+                        base = sym(nm)
+                ok = ext == 2 * w and rows == {coord} and base is not None and lo == base - w + 1
+                rep.ob("C06.b", "%s gather %d window axis %d <- coordinate %s" % (vlab, gi, k, "xyz"[coord]), ok,
+                       "array axis %d is windowed with rows %s of the nearest-index array as %r : %r (extent %r); documented idx_%s - w + 1 : idx_%s + w + 1" % (
+                           k, sorted(rows), lo, hi, ext, "xyz"[coord], "xyz"[coord]), key="C06.b|%s|%d|axis%d|%s|%s" % (vlab, gi, k, sorted(rows), short(lo, 60)),
+                       sample={"dim": dim, "variant": vlab, "axis": k, "coordinate": "xyz"[coord], "window": [repr(lo), repr(hi)]})
     if g0 is None:
-        rep.ob("C06.a", lab + " window", False, "cannot read the interpolation window", key="C06.a|%s|window" % lab)
         return
-    e = next(x for x in g0["factors"] if isinstance(x, Arr) and x.alloc.id == Rr["eul"].alloc.id)
-    fixed, win = view_window(e)
-    near = Rr["nearest"]
-    esyms = getattr(near.alloc, "elem_syms", {})
-    for k, (lo, hi) in enumerate(win):
-        coord = dim - 1 - k          # array axis k carries coordinate dim-1-k (x on the last axis)
-        ext = simplify_scalar(hi - lo)
-        # which row of the nearest-index array does this axis use?
-        rows = set()
-        for a in lo.all_atoms():
-            if a[0] == "s" and a[1] in esyms:
-                rows.add(simplify_scalar(esyms[a[1]][1][0]))
-        base = None
-        for nm, (res, index) in esyms.items():
-            if simplify_scalar(index[0]) == coord:
-                base = sym(nm)
-        ok = ext == 2 * w and rows == {coord} and base is not None and lo == base - w + 1
-        rep.ob("C06.b", "%s window axis %d <- coordinate %s" % (lab, k, "xyz"[coord]), ok,
-               "array axis %d is windowed with rows %s of the nearest-index array as %r : %r (extent %r); documented idx_%s - w + 1 : idx_%s + w + 1" % (
-                   k, sorted(rows), lo, hi, ext, "xyz"[coord], "xyz"[coord]), key="C06.b|%s|axis%d|%s|%s" % (lab, k, sorted(rows), short(lo, 60)),
-               sample={"dim": dim, "axis": k, "coordinate": "xyz"[coord], "window": [repr(lo), repr(hi)]})
     wv = next(x for x in g0["factors"] if isinstance(x, Arr) and x.alloc.id == Rr["weights"].alloc.id)
     rep.ob("C06.a", "%s weights are %s per marker" % (lab, "x".join(["4"] * dim)), tuple(simplify_scalar(s) for s in wv.shape) == (2 * w,) * dim,
            "weight block shape %s" % (wv.shape,), key="C06.a|%s|wshape|%s" % (lab, wv.shape), nontrivial=False)
@@ -315,7 +327,7 @@ def run(S, tier, rep):
             kernel_identities(S, rep, dim, kind)
     grid_agreement(S, rep)
     rep.require_min("C06.a", 8)
-    rep.require_min("C06.b", 5)
+    rep.require_min("C06.b", 18)
     rep.require_min("C06.c", 12)
     rep.require_min("C06.n", 100)
     rep.require_min("C06.m", 5)
